@@ -367,6 +367,59 @@ def unit_reuse(ctx):
 
 
 
+def unit_library_transforms(ctx):
+    """The same invariances with the transformation carried out by the LIBRARY's own operations on the field object
+    (-f, f * c, Field.rotate90, in-place mesh scale / translate), on meshes with and without periodic directions, with the
+    texture sitting across the periodic seam and with invalid cells that hold non-zero vectors."""
+    n = (20, 14)
+    cell = ctx.choose("cell", [(1.0, 2.0), (0.5e-9, 2e-9)])
+    bc = ctx.choose("bc", ["", "x", "y", "xy"])
+    mk = ctx.choose("mask", ["all", "holes", "half"])
+    method = ctx.choose("method", ["continuous", "berg-luescher"])
+    t = ctx.choose("transform", ["-f", "f * 2.5", "f * 1e-3", "rotate90 k=1", "rotate90 k=2", "rotate90 k=3", "rotate90 k=-1",
+                                 "mesh.scale(3) in place", "mesh.translate in place", "np.negative(f)", "(-f) * (-1)"])
+    arr = np.roll(skyrmion(n, 1, np.pi / 2, 1), n[0] // 2, axis=0)      # the texture sits across the seam in x
+    if mk == "half":
+        mask = np.ones(n, dtype=bool)
+        mask[: n[0] // 2] = False
+    else:
+        mask = mask_of(mk, n)
+    p2 = tuple(k * c for k, c in zip(n, cell))
+    mesh = df.Mesh(region=df.Region(p1=(0.0, 0.0), p2=p2), n=n, bc=bc)
+    f = df.Field(mesh, nvdim=3, value=arr, valid=mask, vdim_mapping={"x": "x", "y": "y", "z": None})
+    inst = ctx.key(drop=("cell",))
+    q0 = _charge(ctx, f, method)
+    sign = 1
+    ctx.step(1, t)
+    if t == "-f":
+        g, sign = -f, -1
+    elif t == "np.negative(f)":
+        g, sign = np.negative(f), -1
+    elif t == "(-f) * (-1)":
+        g = (-f) * (-1)
+    elif t.startswith("f * "):
+        g = f * float(t[4:])
+    elif t.startswith("rotate90"):
+        g = f.rotate90("x", "y", k=int(t.split("=")[1]))
+    elif t.startswith("mesh.scale"):
+        g = df.Field(df.Mesh(region=df.Region(p1=(0.0, 0.0), p2=p2), n=n, bc=bc), nvdim=3, value=arr, valid=mask,
+                     vdim_mapping={"x": "x", "y": "y", "z": None})
+        g.mesh.scale(3.0, inplace=True)
+    else:
+        g = df.Field(df.Mesh(region=df.Region(p1=(0.0, 0.0), p2=p2), n=n, bc=bc), nvdim=3, value=arr, valid=mask,
+                     vdim_mapping={"x": "x", "y": "y", "z": None})
+        g.mesh.translate((7.7 * cell[0], -123.456 * cell[1]), inplace=True)
+    q1 = _charge(ctx, g, method)
+    ctx.observe(round(q0, 9), round(q1, 9))
+    ctx.check()
+    if abs(q0) < 0.3:
+        ctx.note("vacuity:base-charge-below-0.3")
+    if abs(q1 - sign * q0) > 1e-9 * max(1.0, abs(q0)):
+        ctx.fail(f"topological_charge/{method}/not-invariant/library-{t.split(' ')[0].split('(')[0]}",
+                 f"{t} on a mesh with bc={bc!r}, mask {mk}: charge {q0!r} -> {q1!r} (expected {sign * q0!r})", instance=inst)
+
+
+
 UNIFORM = [(0, 0, 1), (0, 0, -1), (1, 0, 0), (0, 1, 0), (1, 1, 0), (1, 2, 3), (-2e5, 1e5, 0.5e5)]
 
 
@@ -688,6 +741,7 @@ def units(tier):
         {"name": "charge", "fn": unit_charge, "bound": None},
         {"name": "coarse", "fn": unit_coarse, "bound": None},
         {"name": "reuse", "fn": unit_reuse, "bound": None},
+        {"name": "library_transforms", "fn": unit_library_transforms, "bound": None},
         {"name": "uniform", "fn": unit_uniform, "bound": None},
         {"name": "bps", "fn": unit_bps, "bound": None},
         {"name": "angles", "fn": unit_angles, "bound": None},
